@@ -614,26 +614,26 @@ pub fn remove_race<F: Fl, const KIND: u8, const OUTER: usize>(c: &LifeCfg) {
 // ==========================================================================================
 // C12: handle churn during traffic
 //   CH=1 senders 1 -> 2 -> 1:
-//     actor 0: send 1 (tx0, single-writer state), tx1 = tx0.clone(), send 2
+//     actor 0: tx1 = tx0.clone(), send 2       (tx0 sent in single-writer state during the prefix)
 //     actor 1: send 3 (tx1), drop tx1          (can only run once the clone exists)
-//     actor 2: rx0 receives x2
+//     actor 2: rx0 receives
 //   CH=2 consumers 1 -> 2 -> 1:
-//     actor 0: tx0 sends 1, 2
-//     actor 1: rx0 receives, rx1 = rx0.clone(), rx0 receives
+//     actor 0: tx0 sends 1
+//     actor 1: rx1 = rx0.clone(), rx0 receives
 //     actor 2: rx1 receives, drop rx1          (can only run once the clone exists)
 
 pub struct Churn<F, const CH: u8>(PhantomData<F>);
 
 impl<F: Fl, const CH: u8> Prog for Churn<F, CH> {
     const NACT: usize = 3;
-    const LEN: [u8; MAXACT] = if CH == 1 { [3, 2, 2, 0] } else { [2, 3, 2, 0] };
+    const LEN: [u8; MAXACT] = if CH == 1 { [2, 2, 1, 0] } else { [1, 2, 2, 0] };
     const BASE: [usize; MAXACT] = [0, 4, 8, 0];
     #[inline(always)]
     fn step(a: usize, k: usize) {
         match (CH, a, k) {
-            (1, 0, 0) => op_send::<F>(0, 0, 1),
-            (1, 0, 1) => op_clone_tx::<F>(1, 0, 1),
-            (1, 0, _) => op_send::<F>(2, 0, 2),
+            // senders 1 -> 2 -> 1 (tx0 has sent in single-writer state during the prefix)
+            (1, 0, 0) => op_clone_tx::<F>(0, 0, 1),
+            (1, 0, _) => op_send::<F>(1, 0, 2),
             (1, 1, 0) => {
                 kani::assume(unsafe { (*wp::<F>()).tx[1].is_some() });
                 op_send::<F>(4, 1, 3)
@@ -642,11 +642,11 @@ impl<F: Fl, const CH: u8> Prog for Churn<F, CH> {
                 kani::assume(unsafe { (*wp::<F>()).tx[1].is_some() });
                 op_drop_tx::<F>(5, 1)
             }
-            (1, _, _) => op_recv::<F>(8 + k, 0),
-            (_, 0, _) => op_send::<F>(k, 0, 1 + k as u8),
-            (_, 1, 0) => op_recv::<F>(4, 0),
-            (_, 1, 1) => op_clone_rx::<F>(5, 0, 1),
-            (_, 1, _) => op_recv::<F>(6, 0),
+            (1, _, _) => op_recv::<F>(8, 0),
+            // consumers 1 -> 2 -> 1
+            (_, 0, _) => op_send::<F>(0, 0, 1),
+            (_, 1, 0) => op_clone_rx::<F>(4, 0, 1),
+            (_, 1, _) => op_recv::<F>(5, 0),
             (_, _, 0) => {
                 kani::assume(unsafe { (*wp::<F>()).rx[1].is_some() });
                 op_recv::<F>(8, 1)
@@ -666,19 +666,15 @@ pub fn churn<F: Fl, const CH: u8, const OUTER: usize>(c: &LifeCfg) {
     let mut w = World::<F>::new(c.cap);
     set_world::<F>(&mut w);
     if CH == 1 {
-        ledger::declare_send(0, 0, 1);
-        ledger::declare_other(1, 0);
-        ledger::declare_send(2, 0, 2);
+        ledger::declare_other(0, 0);
+        ledger::declare_send(1, 0, 2);
         ledger::declare_send(4, 1, 3);
         ledger::declare_other(5, 1);
         ledger::declare_recv(8, 2, 0);
-        ledger::declare_recv(9, 2, 0);
     } else {
         ledger::declare_send(0, 0, 1);
-        ledger::declare_send(1, 0, 2);
-        ledger::declare_recv(4, 1, 0);
-        ledger::declare_other(5, 1);
-        ledger::declare_recv(6, 1, 0);
+        ledger::declare_other(4, 1);
+        ledger::declare_recv(5, 1, 0);
         ledger::declare_recv(8, 2, 0);
         ledger::declare_other(9, 2);
     }
@@ -814,10 +810,10 @@ life!(c11_bc_addrace_o2, hk_c11_bc_addrace_o2, Runner<Rem2<BcB, 2>, 2>, remove_r
 life!(c11_bc_bothhandles_o1, hk_c11_bc_bothhandles_o1, Runner<Rem2<BcB, 4>, 1>, remove_race::<BcB, 4, 1>(&LR));
 life!(c10_bc_addadd_o1, hk_c10_bc_addadd_o1, Runner<Rem2<BcB, 3>, 1>, remove_race::<BcB, 3, 1>(&LR));
 // C12
-life!(c12_mp_senders_o0, hk_c12_mp_senders_o0, Runner<Churn<MpB, 1>, 0>, churn::<MpB, 1, 0>(&LifeCfg { pre_send: 1, pre_recv: 1, ..LQ }));
-life!(c12_bc_senders_o0, hk_c12_bc_senders_o0, Runner<Churn<BcB, 1>, 0>, churn::<BcB, 1, 0>(&LifeCfg { pre_send: 1, pre_recv: 1, ..LQ }));
-life!(c12_mp_consumers_o1, hk_c12_mp_consumers_o1, Runner<Churn<MpB, 2>, 1>, churn::<MpB, 2, 1>(&LifeCfg { pre_send: 2, pre_recv: 1, ..LQ }));
-life!(c12_bc_consumers_o1, hk_c12_bc_consumers_o1, Runner<Churn<BcB, 2>, 1>, churn::<BcB, 2, 1>(&LifeCfg { pre_send: 2, pre_recv: 1, ..LQ }));
+life!(c12_mp_senders_o0, hk_c12_mp_senders_o0, Runner<Churn<MpB, 1>, 0>, churn::<MpB, 1, 0>(&LifeCfg { pre_send: 1, pre_recv: 1, per_site: 1, ..LQ }));
+life!(c12_bc_senders_o0, hk_c12_bc_senders_o0, Runner<Churn<BcB, 1>, 0>, churn::<BcB, 1, 0>(&LifeCfg { pre_send: 1, pre_recv: 1, per_site: 1, ..LQ }));
+life!(c12_mp_consumers_o1, hk_c12_mp_consumers_o1, Runner<Churn<MpB, 2>, 1>, churn::<MpB, 2, 1>(&LifeCfg { pre_send: 2, pre_recv: 1, per_site: 1, ..LQ }));
+life!(c12_bc_consumers_o1, hk_c12_bc_consumers_o1, Runner<Churn<BcB, 2>, 1>, churn::<BcB, 2, 1>(&LifeCfg { pre_send: 2, pre_recv: 1, per_site: 1, ..LQ }));
 // C13
 life!(c13_mp_one, hk_c13_mp_one, Idle, no_receivers::<MpB, 1, false, true>(2));
 life!(c13_mp_two_handles, hk_c13_mp_two_handles, Idle, no_receivers::<MpB, 2, true, true>(2));
